@@ -88,6 +88,9 @@ pub fn run(args: &Args) -> i32 {
     if args.extra.contains_key("selftest") {
         return selftest(args);
     }
+    if let Some(p) = args.extra.get("probe") {
+        return probe(args, p);
+    }
     let report = Report::new(args, "exploration", RULE, (50, 900)).with_min_nontrivial(50);
     report.assume("object_store::memory::InMemory serves get_opts ranges faithfully");
     report.assume("bounded progress is judged at quiescence of a current-thread runtime (no wall clock); the multi-thread stress leg can only report a hang as inconclusive");
@@ -416,6 +419,7 @@ struct Shape {
     far: bool,
     needs_split: bool,
     empty_at_eof: bool,
+    unsorted_only_by_empties: bool,
     sig: u64,
 }
 
@@ -478,26 +482,85 @@ fn analyze(req: &Req, block: u64, m: u64, file_len: u64) -> Shape {
             s.needs_split = true;
         }
     }
+    s.needs_split = s.needs_split || run_needs_split(req, block, m);
     code.push(if s.needs_split { 99 } else { 98 });
     s.sig = fnv(&code);
+    if s.unsorted && s.has_empty {
+        let mut last = 0u64;
+        let mut sorted = true;
+        for r in req.iter().filter(|r| r.end > r.start) {
+            if r.start < last {
+                sorted = false;
+            }
+            last = r.start;
+        }
+        s.unsorted_only_by_empties = sorted;
+    }
     s
 }
 
+/// Does the coalescing pass (sequential merge of ranges whose start is within `block` of the current
+/// run's end) produce a run longer than the maximum request size? Only used to *name* shapes.
+fn run_needs_split(req: &Req, block: u64, m: u64) -> bool {
+    let mut it = req.iter();
+    let Some(first) = it.next() else { return false };
+    let mut cur = first.clone();
+    let mut split = false;
+    for r in it {
+        if r.start <= cur.end + block {
+            cur.end = cur.end.max(r.end);
+        } else {
+            split |= cur.end.saturating_sub(cur.start) > m;
+            cur = r.clone();
+        }
+    }
+    split | (cur.end.saturating_sub(cur.start) > m)
+}
+
+/// Narrow class of a (minimised) failing list, by precedence:
+///  1. `unsorted-ranges`: some non-empty range starts before the start of an earlier range;
+///  2. `overlapping-ranges-after-split`: ascending, some range overlaps / is contained in / equals an
+///     earlier one and the coalesced run exceeds the maximum request size;
+///  3. `empty-range-out-of-order`: only empty ranges are out of order (what the legacy blob decoder
+///     submits for null blobs: `1..1` between real positions); `empty-range`: ascending with empties;
+///  4. `overlapping-ranges`, `sorted-disjoint-ranges[-after-split]`.
 fn class_of(req: &Req, block: u64, m: u64, file_len: u64) -> String {
     let s = analyze(req, block, m, file_len);
-    let base = if s.has_empty {
-        "empty-range"
-    } else if s.unsorted {
-        "unsorted-ranges"
-    } else if s.overlapping || s.contained || s.dup {
-        "overlapping-ranges"
-    } else {
-        "sorted-disjoint-ranges"
-    };
-    if s.needs_split && base != "empty-range" && base != "unsorted-ranges" {
-        format!("{base}-after-split")
-    } else {
-        base.to_string()
+    let mut max_start = 0u64;
+    let mut nonempty_out_of_order = false;
+    for r in req {
+        if r.end > r.start && r.start < max_start {
+            nonempty_out_of_order = true;
+        }
+        max_start = max_start.max(r.start);
+    }
+    if nonempty_out_of_order {
+        return "unsorted-ranges".to_string();
+    }
+    let split = run_needs_split(req, block, m);
+    // overlap among the non-empty ranges (they are ascending here)
+    let mut max_end = 0u64;
+    let mut overlap = false;
+    for r in req.iter().filter(|r| r.end > r.start) {
+        if r.start < max_end {
+            overlap = true;
+        }
+        max_end = max_end.max(r.end);
+    }
+    if overlap && split {
+        return "overlapping-ranges-after-split".to_string();
+    }
+    if s.has_empty {
+        return if s.unsorted {
+            "empty-range-out-of-order".to_string()
+        } else {
+            "empty-range".to_string()
+        };
+    }
+    match (overlap, split) {
+        (true, _) => "overlapping-ranges".to_string(),
+        (false, true) => "sorted-disjoint-ranges-after-split".to_string(),
+        (false, false) => "sorted-disjoint-ranges".to_string(),
     }
 }
 
@@ -665,6 +728,7 @@ fn count_shape(col: &Collector, s: &Shape) {
     f("has_empty_range", s.has_empty);
     f("empty_range_at_eof", s.empty_at_eof);
     f("unsorted", s.unsorted);
+    f("unsorted_only_by_empty_ranges", s.unsorted_only_by_empties);
     f("overlapping", s.overlapping);
     f("contained", s.contained);
     f("duplicate", s.dup);
@@ -746,7 +810,13 @@ async fn boundary_case(env: &Env, col: &Collector, idx: u64, rng: &mut Rng) {
             submit_and_judge(&via, &su.data, &min, prio, None).await
         };
         let class = class_of(&min, su.block_size, env.max_iop, file_len);
-        let signature = format!("{}-{}{}", sym.name(), class, via.name());
+        // wrong bytes can be manufactured by LanceEncodingsIo's reassembly from a short reply of the
+        // file scheduler, so that symptom keeps the path in its name; the others do not
+        let signature = if matches!(sym, Symptom::WrongBytes(_)) && matches!(via, Via::Enc(..)) {
+            format!("wrong-bytes-via-encodings-io-{class}")
+        } else {
+            format!("{}-{}", sym.name(), class)
+        };
         col.violation(
             &signature,
             &format!(
@@ -967,6 +1037,7 @@ async fn progress_case_inner(env: &Env, col: &Collector, idx: u64, rng: &mut Rng
     let mut resolve_latency_max = 0usize;
     let mut last_release_step = 0usize;
     let mut unstable = false;
+    let mut transient_fails: Vec<(u64, u64)> = vec![];
     let starve_id: u64 = 0;
     let corrupt_hold = env.selftest; // selftest: never release read 0 => must be reported as stuck
 
@@ -1164,7 +1235,14 @@ async fn progress_case_inner(env: &Env, col: &Collector, idx: u64, rng: &mut Rng
                     }
                 };
                 let p = &releasable[pick];
-                let fail = !p.head && rng.below(20) < fail_p;
+                // the reader retries a failed get 3 times: at most 3 injected failures per range keep
+                // the failure transient
+                let key = p.range.as_ref().map(|r| (r.start, r.end)).unwrap_or((u64::MAX, 0));
+                let fails_so_far = transient_fails.iter().filter(|k| **k == key).count();
+                let fail = !p.head && fails_so_far < 3 && rng.below(20) < fail_p;
+                if fail {
+                    transient_fails.push(key);
+                }
                 su.gate
                     .release(p.id, if fail { Verdict::Fail } else { Verdict::Proceed });
                 last_release_step = step;
@@ -1235,11 +1313,16 @@ async fn progress_case_inner(env: &Env, col: &Collector, idx: u64, rng: &mut Rng
         if env.selftest {
             col.count("selftest.stuck_detected", 1);
         } else {
-            col.violation(
-                &format!("request-never-completes{class}"),
-                why,
-                base_witness.clone(),
-            );
+            // narrow class: a future was dropped before it resolved and the queue still carries its
+            // priority / byte reservation although no read is running or parked (hook H1)
+            let leaked = futs_dropped > 0
+                && ms.iter().any(|q| !q.closed && q.last.in_flight > 0 && q.last.iops_avail == q.cap0);
+            let sig = if leaked {
+                "request-starved-by-budget-of-dropped-future".to_string()
+            } else {
+                format!("request-never-completes{class}")
+            };
+            col.violation(&sig, why, base_witness.clone());
         }
     } else if env.selftest {
         col.count("selftest.stuck_missed", 1);
@@ -1593,3 +1676,39 @@ fn selftest(args: &Args) -> i32 {
 
 #[allow(dead_code)]
 fn _unused(_: BTreeSet<u8>) {}
+
+/// `--probe "5..5;10..20" [--file-len N] [--block B] [--chunk C]`: run one explicit list through the
+/// real scheduler and print what comes back (used to minimise witnesses for the finding files).
+fn probe(args: &Args, spec: &str) -> i32 {
+    let req: Req = spec
+        .split(';')
+        .filter(|s| !s.trim().is_empty())
+        .map(|s| {
+            let (a, b) = s.trim().split_once("..").expect("a..b");
+            a.parse::<u64>().unwrap()..b.parse::<u64>().unwrap()
+        })
+        .collect();
+    let file_len: u64 = args.extra.get("file-len").and_then(|s| s.parse().ok()).unwrap_or(100_000);
+    let block: usize = args.extra.get("block").and_then(|s| s.parse().ok()).unwrap_or(4096);
+    let chunk: Option<u64> = args.extra.get("chunk").and_then(|s| s.parse().ok());
+    std::panic::set_hook(Box::new(|_| {}));
+    let rt = rt_current();
+    rt.block_on(async move {
+        let mut rng = Rng::new(args.seed);
+        let data = Bytes::from(rng.bytes(file_len as usize));
+        let gate = GateStore::new();
+        let path = Path::from("dir/file.bin");
+        gate.inner.put(&path, data.clone().into()).await.unwrap();
+        let store = Arc::new(ObjectStore::new(gate.clone(), url::Url::parse("memory:///").unwrap(), Some(block), None, false, true, 8, 3, None));
+        let sched = ScanScheduler::new(store.clone(), SchedulerConfig { io_buffer_size_bytes: 1 << 30 });
+        let fs = sched.open_file(&path, &CachedFileSize::new(file_len)).await.unwrap();
+        let via = match chunk {
+            Some(c) => Via::Enc(Arc::new(LanceEncodingsIo::new(fs.clone()).with_read_chunk_size(c)), c),
+            None => Via::File(fs.clone()),
+        };
+        let sym = submit_and_judge(&via, &data, &req, 0, None).await;
+        println!("file_len={file_len} block_size={block} max_iop_size={} via={:?} ranges={:?} -> {:?} (expected {} buffers)",
+            store.max_iop_size(), via.name(), req, sym, req.len());
+    });
+    0
+}
